@@ -298,8 +298,9 @@ func (ps *sparser) unary() Expr {
 		vt := ""
 		if ps.isOp(":") {
 			ps.next()
-			tt := ps.next()
-			vt = tt.text
+			for !ps.isOp("::") && ps.peek().kind != "eof" {
+				vt += ps.next().text
+			}
 		}
 		ps.expect("::")
 		body := ps.expr(0)
